@@ -367,6 +367,15 @@ pub fn check_against_refc(case: &SemCase, st: &mut Stats, tag: &str, ex: &Excl) 
                     }
                     other => return Err(format!("{}-crash: emitted code stopped with {:?}; input #{}", tag, other, vi)),
                 }
+                if let Some(f) = r.faults.first() {
+                    return Err(format!(
+                        "{}-port: split-port RAM accessed through the wrong port: {:?} ({} faults); input #{}",
+                        tag,
+                        f,
+                        r.faults.len(),
+                        vi
+                    ));
+                }
                 let actual = observable(&case.prog, &r);
                 if let Some(d) = diff_states(&fs.globals, fs.x, fs.y, &actual, r.x, r.y, &fs.unspecified) {
                     return Err(format!("{}-mismatch: {}; input #{}", tag, d, vi));
@@ -438,6 +447,16 @@ pub fn source_is_undefined(prog: &Program, img: &Image, init: &Init, signed_char
         }
     }
     false
+}
+
+/// true unless every RefC reading agrees on this input (no UB, no unspecified order, no
+/// active dynamic exclusion, identical histories): outside this agreement domain two
+/// spellings that are equivalent in C may legitimately be compiled differently
+pub fn outside_agreement_domain(prog: &Program, img: &Image, init: &Init, signed_chars: bool, ex: &Excl) -> bool {
+    match refc::run_all_ex(prog, &img.layout, init, REFC_STEPS, &refc::READINGS, signed_chars, ex.has("signed_rel_overflow")) {
+        Verdict::Agreed(_) | Verdict::Timeout => false,
+        _ => true,
+    }
 }
 
 pub fn co_execute_f(
